@@ -347,6 +347,25 @@ def hints(ctx, cfg, fs):
                 continue   # the word sits on the right of `--`: nothing of this parser can be suggested for it (listed exception)
             if e in reachable_edges(b, 0, avoid=hint_blocks):
                 missing.append(b.where(e))
+        if nm == 'take_argument':
+            # the name is offered whenever it is not on the line yet - also when the value then comes from the environment
+            ta = [c for c in b.calls() if c.is_(r'take_arg$')]
+            absent = []
+            for sw_ in switches(b):
+                if sw_.kind == 'enum' and sw_.enum.endswith('option::Option') and sw_.target('None') is not None and ta:
+                    rs_ = provenance(b, sw_.place, sw_.discr_site[0], sw_.discr_site[1], through=None)
+                    if rs_ and all(r.kind == 'call' and r.call.bb == ta[0].bb and r.path[-2:] == ['as Ok', '0'] for r in rs_):
+                        absent.append(sw_.target('None'))
+            if not absent:
+                # `match args.take_arg(..) { Ok(Some(w)) => .., Err(e) => .., _ => .. }`: the otherwise edge of the nested switches
+                for sw_ in switches(b):
+                    if sw_.kind == 'enum' and ta:
+                        rs_ = provenance(b, sw_.place, sw_.discr_site[0], sw_.discr_site[1], through=None)
+                        if rs_ and all(r.kind == 'call' and r.call.bb == ta[0].bb for r in rs_) and sw_.enum.endswith('option::Option'):
+                            absent.append(sw_.target('None'))
+            leaks = [b.where(r_) for t_ in absent for r_ in b.return_blocks() if r_ in reachable_edges(b, t_, avoid=hint_blocks)]
+            ctx.ob('E.hints', 'take_argument:name-offered-whenever-not-on-the-line', bool(absent) and not leaks,
+                   'from the "name is not on the line" arm every way out of take_argument (missing, no-env AND the value taken from the environment) passes push_argument (%d arm(s)): %s' % (len(absent), leaks or 'ok'), where=b.where(), cfg=cfg)
         ctx.ob('E.hints', '%s:failing-exits-emit-hints' % nm, good and not missing, '%s: every failing exit is preceded by a call into the hint family %s: %s' % (nm, pats, missing or 'ok'), where=b.where(), cfg=cfg)
     for fn in ('push_flag', 'push_argument', 'push_metavar', 'push_command', 'push_pos_sep'):
         b = ctx.look(fs.one(r'complete_gen::<impl args::inner::State>::%s$' % fn))
@@ -394,4 +413,13 @@ def wrappers(ctx, cfg, fs):
     sw = [c for c in b.calls() if c.is_(r'^std::mem::swap::<args::inner::State>$')]
     ok = len(sc) == 1 and bool(sw) and b.dominates(sw[0].bb, sc[0].bb) and any(b.reaches(sc[0].bb, [n]) for n in nones)
     ctx.ob('W.wrappers', 'parse_option:hints-kept-when-swallowing', ok, 'parse_option, after restoring the pre-attempt state, takes the hints of the failed attempt along when completion is on: %s' % ok, where=b.where(), cfg=cfg)
+    # ... on EVERY way from the inner failure to Ok(None): also the `catch` way (hints are pushed by the attempt that failed because
+    # the item is not on the line yet - exactly the case completion is asked about)
+    ev = [c for c in result_calls(b) if c.is_(r'as Parser<.*>>::eval$')]
+    gs = [c.bb for c in b.calls() if c.is_(r'State::comp_(mut|ref)$') and sc and b.dominates(c.bb, sc[0].bb)]
+    every = False
+    if len(ev) == 1 and gs and nones:
+        fl = classify_result(b, ev[0])
+        every = bool(fl.err_edges) and all(not (reachable_edges(b, tb, avoid=gs) & set(nones)) for (sb, tb) in fl.err_edges)
+    ctx.ob('W.wrappers', 'parse_option:hints-kept-on-every-swallow', every, 'every way from the inner failure to Ok(None) passes the hand-over of the hints: %s' % every, where=b.where(), cfg=cfg)
     ctx.ob('W.wrappers', 'parse_option:swap-guarded-by-comp', bool(sc) and c06.under_completion_predicate(b, sc[0].bb), 'that hand-over happens only in completion mode', where=b.where(), cfg=cfg)
